@@ -322,6 +322,7 @@ def c10(run, replay=None):
     classify(recs)
     groups = []
     shape_checked = 0
+    shape_in_class = []
     for r in recs:
         o = r["outs"][0]
         if "ok" in o:
@@ -348,11 +349,28 @@ def c10(run, replay=None):
                 missing += [c for c in D.commands_of(r["lines"]) if D.key_of(c) not in js]
                 if missing:
                     run.violation("unstable-shape: `prog %s` with %r lacks %r in %s" % (r["usage"], r["argv"], missing, json.dumps(js)), replay_of(r))
+            else:
+                # inside a known usage class: a missing key is that finding only if the recorded version lacks it too
+                missing = [c for c in D.commands_of(r["lines"]) if D.key_of(c) not in js]
+                if r["with_opts"]:
+                    opts = js.get("options", {})
+                    missing += ["options." + D.key_of(D.cname(x)) for x in D.opts_of(r["with_opts"]) if D.key_of(D.cname(x)) not in (opts if isinstance(opts, dict) else {})]
+                if missing:
+                    shape_in_class.append((r, missing))
         if r["with_opts"] and r["verdict"] == "ok" and "ok" in o and r["ref"] and any(t[0] == 'o' for t in r["ref"]["toks"]) \
                 and not r["classes"] and not dup_option(r["ref"]["toks"]):
             avs = respellings(r["ref"]["toks"], opts=D.opts_of(r["with_opts"]))
             if len(avs) > 1:
                 groups.append((r, avs))
+    if shape_in_class:
+        pouts = C.run_harness("docopt", [dict(file=D.script_text(r["lines"], r["with_opts"]), args=r["argv"], pinned=True) for r, _ in shape_in_class], per_case_timeout=20)
+        for (r, missing), po in zip(shape_in_class, pouts):
+            if not po.get("crash") and po.get("pinned") == r["outs"][0]:
+                run.known("K13-" + r["classes"][0], "")
+            else:
+                r["pinned_outcome"] = None if po.get("crash") else po.get("pinned")
+                run.violation("unstable-shape: `prog %s` with %r lacks %r in %s (the recorded version of the module gives another result)" %
+                              (r["usage"], r["argv"], missing, json.dumps(r["outs"][0])[:300]), replay_of(r))
     if run.tier == "quick" and len(groups) > 1500:
         groups = run.rng.sample(groups, 1500)
     # the respellings must canonicalise to the same tokens (ties the python speller to Spell/canon in Coq)
